@@ -257,3 +257,38 @@ def gen_sim(rng, algo=None, gen='G-sim', small=True):
     arrivals.sort(key=lambda a: a[0])
     return dict(gen=gen, algo=algo, tps=tps, over=over, multi=multi, npools=npools, cpu=cpu, ram=ram,
                 duration=duration, pipes=pipes, segs=segs, arrivals=arrivals)
+
+
+def gen_preempt(rng, gen='G-sim-preempt'):
+    """priority scheduler under contention: pools saturated by batch/interactive chains with frequent operator
+    boundaries, query pipelines arriving while nothing is free, so that preemption and resumption occur"""
+    tps = rng.choice([1, 2, 2, 10])
+    npools = rng.choice([1, 1, 2, 3])
+    cpu = rng.choice([2, 3, 4, 6, 10])
+    ram = rng.choice([10, 20, 100, 200, 400])
+    nticks = rng.choice([30, 60, 100])
+    share = max(1, int(ram / 10))
+    pipes, segs, arrivals = [], [], []
+    nb = npools * cpu + rng.randint(0, 4)
+
+    def mkops(n, heavy=False):
+        ops = []
+        for _ in range(n):
+            ticks = rng.choice([1, 1, 2, 3])
+            s = dict(baseline_cpu_seconds=float(ticks) / tps, cpu_scaling='const', storage_read_gb=0.0,
+                     memory_gb=float(rng.choice([0.25, 0.5, 1.0]) * (share if not heavy else 3 * share)))
+            ops.append([s])
+        return ops
+    for k in range(nb):
+        n = rng.randint(2, 5)
+        pipes.append((rng.choice([3, 3, 2]), [[j - 1] if j else [] for j in range(n)]))
+        segs.append(mkops(n, heavy=rng.random() < 0.15))
+        arrivals.append((rng.choice([0, 0, 0, 1, 2]), k))
+    for q in range(rng.randint(1, 6)):
+        n = rng.choice([1, 1, 2])
+        pipes.append((1, [[j - 1] if j else [] for j in range(n)]))
+        segs.append(mkops(n))
+        arrivals.append((rng.randint(1, 15), len(pipes) - 1))
+    arrivals.sort(key=lambda a: a[0])
+    return dict(gen=gen, algo='priority', tps=tps, over=0, multi=rng.choice([1, 1, 1, 0]), npools=npools, cpu=cpu, ram=ram,
+                duration=nticks / tps, pipes=pipes, segs=segs, arrivals=arrivals)
